@@ -231,13 +231,16 @@ def chain_roundtrip(b, sym):
     b.mkdir("R/ascmhl")
     chain = CH.MHLChain(b.p("R/ascmhl/ascmhl_chain.xml"))
     n = sym.choose("existing_generations", [0, 1, 2, 3])
+    # the chain file of a collection (flatten destination) lists every packing list with sequence number 1
+    same_seq = sym.flag("collection_entries_all_numbered_1") if n >= 2 else False
     written = []
     for i in range(n):
         name = "%04d_R &_2020-01-1%d_130000Z.mhl" % (i + 1, i)
         d = b.Hcid("c4", 300 + i, 5)
-        g = CH.MHLChainGeneration(i + 1, name, "c4", d)
+        seq = 1 if same_seq else i + 1
+        g = CH.MHLChainGeneration(seq, name, "c4", d)
         chain.append_generation(g)
-        written.append((str(i + 1), name, d))
+        written.append((str(seq), name, d))
     new = "R/ascmhl/%04d_R &_2020-01-15_130000Z.mhl" % (n + 1)
     b.mkfile(new, 400)
     hl = HL.MHLHashList()
